@@ -24,7 +24,7 @@ CANDS = ['A1', 'A1D1', 'A2A1', 'D1D1', 'Y1O1', 'M']
 
 
 def specs(tier):
-    maxn = 3
+    maxn = 4 if tier == 'thorough' else 3
     seen = 0
     for ti, term in enumerate(D.TERMINALS):
         for n in range(1, maxn + 1):
@@ -32,7 +32,9 @@ def specs(tier):
                 # permutations: the Markov line at every position of the list
                 if n == 3 and 'M' not in combo and tier == 'quick':
                     continue
-                for probs in ([[.5, .3, .2][:n]] + ([[.4, .4, .2][:n]] if n > 1 else [])):
+                if n == 4 and 'M' not in combo:
+                    continue
+                for probs in ([[.4, .3, .2, .1][:n] if n == 4 else [.5, .3, .2][:n]] + ([[.4, .4, .2, .1][:n] if n == 4 else [.4, .4, .2][:n]] if n > 1 else [])):
                     spec = dict(term)
                     spec['grammar'] = list(zip(combo, probs))
                     spec['prince'] = D.PRINCE
@@ -45,7 +47,7 @@ def shards(tier):
 
 
 def bounds(tier):
-    return {'structure_candidates': CANDS, 'lines_per_ruleset': '1..3, all orders', 'terminal_sets': len(D.TERMINALS),
+    return {'structure_candidates': CANDS, 'lines_per_ruleset': '1..%d, all orders' % (4 if tier == 'thorough' else 3), 'terminal_sets': len(D.TERMINALS),
             'flags': 'skip_brute x all_lower', 'session': '%d rulesets x 3 flag sets x every quit position' % len(session_specs(tier))}
 
 
